@@ -14,6 +14,7 @@ Every step sets a unique status ``S<i>`` at entry and appends to ``self.trace`` 
 auto-persisted member, so the trace survives checkpoints).
 """
 import asyncio
+import collections
 import copy
 import json
 
@@ -27,6 +28,8 @@ MAX_STEPS = 8
 
 #: recorder the next constructed / loaded process attaches to (set by the engine)
 CURRENT_REC = None
+#: every generated process constructed or loaded (harnesses that do not construct the processes themselves clear and read this)
+INSTANCES = collections.deque(maxlen=256)
 
 
 class ProgError(Exception):
@@ -83,6 +86,7 @@ class ProgBase(plumpy.Process):
         self._attach()
 
     def _attach(self):
+        INSTANCES.append(self)
         self._rec = CURRENT_REC
         rec = self._rec
         if rec is not None:
